@@ -233,7 +233,11 @@ func VerifC04_FaultAtAnyQueuePosition() {
 	recovered := man2.ScanChunks()
 	for _, c := range recovered {
 		man2.OnChunkInputRecovered(c)
-		feeder2.loadToOutput(c)
+	}
+	for _, c := range recovered {
+		if !feeder2.loadToOutput(c) {
+			break
+		}
 	}
 	last := -1
 	forwarded := [3]bool{}
@@ -315,7 +319,12 @@ func VerifC04_DamagedFileDoesNotBlockRecovery() {
 	for i, c := range recovered {
 		sym.Assert(c.ID == ids[i], "recovered in creation (id) order")
 		man.OnChunkInputRecovered(c)
-		feeder.loadToOutput(c)
+	}
+	for _, c := range recovered {
+		// as the feeder's main loop does: "false" means feeding is aborted and the loop ends
+		if !feeder.loadToOutput(c) {
+			break
+		}
 	}
 	next := 0
 	for i := 0; i < 3; i++ {
@@ -358,6 +367,13 @@ func VerifC04_DamagedFileDoesNotBlockRecovery() {
 	}
 	sym.Reach("recovered")
 }
+
+// VerifC03_DamagedChunkIsCounted: the damaged-file run read for C03 (every recovered chunk is forwarded or counted as dropped).
+//
+//verif:reach recovered
+//verif:native off
+//verif:solver cvc5-int
+func VerifC03_DamagedChunkIsCounted() { VerifC04_DamagedFileDoesNotBlockRecovery() }
 
 // VerifC19_DamagedChunkAccounting: the damaged-file run read for C19 (dropped counter, on-disk gauges).
 //
